@@ -46,8 +46,12 @@ type verifSplitAgg struct {
 func (a *verifSplitAgg) ResultSet() series.GroupedIterators { return a.groups }
 
 func verifC12Split() {
-	nGroups := 1 + verifChoose("groups", 3)
-	nRecv := 1 + verifChoose("receivers", 3)
+	maxG, maxR := 3, 3
+	if verifThorough() {
+		maxG, maxR = 5, 4
+	}
+	nGroups := 1 + verifChoose("groups", maxG)
+	nRecv := 1 + verifChoose("receivers", maxR)
 	// group i has tag value id i+1 (4 bytes, little endian) whose tag value is one symbolic byte
 	tagValues := map[uint32]string{}
 	vals := make([]byte, nGroups)
@@ -108,7 +112,11 @@ func verifC12Split() {
 // grouping aggregator holds: every group exactly once, with its own tags and its own field bytes
 // (1-3 groups, 1-2 fields, symbolic tag and field bytes).
 func verifC12Intermediate() {
-	nGroups := 1 + verifChoose("groups", 3)
+	maxG := 3
+	if verifThorough() {
+		maxG = 5
+	}
+	nGroups := 1 + verifChoose("groups", maxG)
 	nFields := 1 + verifChoose("fields", 2)
 	names := []string{"f", "g"}
 	tags := make([]byte, nGroups)
